@@ -33,7 +33,7 @@ From LMScore Require ScoreModel ScoreProofs StripeBridge C01.
 From LMScan Require Import ScanModel ScanLemmas ScanProofs ScanConcrete ConcreteProofs.
 From LMScan Require DiscBridge.
 From LME2E Require Import E2EBridgeStripe E2EBridgeScore E2EPipeline E2EKernelScan E2EProofs E2EStretch.
-From LMPyGlue Require PyGlueModel PyGlueProofs PyGlueHistory PyGlueLazy PyGlueLazyProofs C17.
+From LMPyGlue Require PyGlueModel PyGlueProofs PyGlueHistory PyGlueLazy PyGlueLazyProofs.
 Import ListNotations.
 
 Module PG := LMPyGlue.PyGlueModel.
